@@ -488,6 +488,10 @@ type handlerCase struct {
 	// none, the subscriptions are on the derived publisher and the values are published on the ORIGIN: every
 	// subscription receives fn(v) exactly once (where is not claimed: the derived publisher has no handler)
 	ViaOrigin bool `json:"viaOrigin,omitempty"`
+	// LateOn: SubscribeOn(h) is called AFTER the subscriptions were made (first SubscribeOn(another handler),
+	// then the subscriptions, then SubscribeOn(h)): the handler that counts is the one set when a value is
+	// published
+	LateOn bool `json:"lateOn,omitempty"`
 }
 
 func runHandlerCase(c handlerCase) histResult {
@@ -521,11 +525,18 @@ func runHandlerCase(c handlerCase) histResult {
 		}
 		p = origin.Map(func(v int) int { return v })
 	}
+	lateOn := c.LateOn && !(c.Derived && c.ViaOrigin)
 	if c.Derived && c.ViaOrigin {
 		hid = 0 // no claim about the goroutine
 	} else {
 		pubOn = p
-		p.SubscribeOn(h)
+		if lateOn {
+			hOld := fpgo.Handler.New()
+			defer hOld.Close()
+			p.SubscribeOn(hOld)
+		} else {
+			p.SubscribeOn(h)
+		}
 	}
 	var mu sync.Mutex
 	counts := make([]map[int]int, c.Subs)
@@ -542,6 +553,9 @@ func runHandlerCase(c handlerCase) histResult {
 			}
 			mu.Unlock()
 		}})
+	}
+	if lateOn {
+		p.SubscribeOn(h)
 	}
 	done := make(chan struct{})
 	go func() {
@@ -962,6 +976,7 @@ func TestSubscribeOn(t *testing.T) {
 			c.OriginOn = rapid.IntRange(0, 2).Draw(t, "originOn")
 			c.ViaOrigin = c.OriginOn > 0 && rapid.Bool().Draw(t, "viaOrigin")
 		}
+		c.LateOn = rapid.IntRange(0, 3).Draw(t, "lateOn") == 0
 		st := vlib.S()
 		st.Eval("subscribeOn")
 		res := runHandlerCase(c)
